@@ -107,8 +107,43 @@ func (c *Ctx) Tabled(table, key string) (string, bool) {
 	r, ok := t[key]
 	if ok {
 		c.tableUsed[table][key] = true
+		return r, ok
+	}
+	// a construct that moved, unchanged, into a new helper (ip.go) is the construct of the function it was moved out of
+	for _, k := range ownerKeys(key) {
+		if r, ok := t[k]; ok {
+			c.tableUsed[table][k] = true
+			return r, ok
+		}
 	}
 	return r, ok
+}
+
+// ownerKeys: the key with the name of a new helper replaced by the name of the function that calls it (for helpers with
+// one call site, transitively).
+func ownerKeys(key string) []string {
+	if len(NewFns) == 0 {
+		return nil
+	}
+	var out []string
+	for h := range NewFns {
+		hn := fname(h)
+		if !strings.Contains(key, hn) {
+			continue
+		}
+		o := h
+		for i := 0; i < ipMaxDepth && NewFns[o] && len(helperSites[o]) == 1; i++ {
+			o = helperSites[o][0].Parent()
+			for o.Parent() != nil {
+				o = o.Parent()
+			}
+		}
+		if o != h && !NewFns[o] {
+			out = append(out, strings.ReplaceAll(key, hn, fname(o)))
+		}
+	}
+	sort.Strings(out)
+	return out
 }
 
 func (c *Ctx) add(o Obligation) { c.Obls = append(c.Obls, o) }
@@ -159,6 +194,12 @@ func (c *Ctx) Fail(rule0, inst, site, detail string) {
 	if what, ok := c.known[key]; ok {
 		c.add(Obligation{rule, inst, site, "known-finding", what + " :: " + detail})
 		return
+	}
+	for _, k := range ownerKeys(key) {
+		if what, ok := c.known[k]; ok {
+			c.add(Obligation{rule, inst, site, "known-finding", what + " :: " + detail})
+			return
+		}
 	}
 	c.add(Obligation{rule, inst, site, "violation", detail})
 }
